@@ -17,12 +17,12 @@ from harness import common as C
 IMPORTS = "From FDAV Require Import Base.Num Base.Vec Base.Cmp Model.Arith Tie.C12."
 
 RULE = ("pairs of dense / irregular datasets in 1-D / 2-D, compatible or incompatible in exactly one respect (type, n_obs, n_points, "
-        "dimension, grid values), operators + - * / // : outcome class (result / TypeError / ValueError), type, sampling points and "
+        "dimension, grid values of the first curve, or ONLY of the last curve / last dimension), operators + - * / // : outcome class (result / TypeError / ValueError), type, sampling points and "
         "values of the result against binop of Model/Arith.v evaluated exactly in Q (+,-,* on dyadic inputs: exact equality; / : "
         "1e-12 relative; // : floor of the exact quotient unless that is within 1e-9 of an integer); operands byte-identical before "
         "and after; Python int / float / bool / np.float64 scalars likewise (np.int64 / np.float32 may be rejected with TypeError); "
         "float monitors for (a+b)-b=a, a*1=a, commutativity, distributivity; == over identical, close, far, differently shaped, "
-        "differently sampled and mixed-kind pairs against fd_eqb (must return a bool, never raise); `in` and remove() on multivariate "
+        "differently sampled (incl. pairs that differ only in the grid, resp. only in the values, of the LAST curve) and mixed-kind pairs against fd_eqb (must return a bool, never raise); `in` and remove() on multivariate "
         "objects against mv_mem / mv_remove. Non-trivial = at least two observations or two points; distinct by operand bytes.")
 ASSUME = ["exact-arithmetic model; division compared with relative tolerance 1e-12; divisors bounded away from 0",
           "np.allclose thresholds are sampled at 0.5x / 2x the threshold, at 0, ~1e-9, >= 1e-3, and at the engineered point between "
@@ -114,16 +114,19 @@ def describe(x):
             "values": {int(k): C.hexf(np.asarray(v)) for k, v in x.values.items()}}
 
 
-def gen_dense(rng, dim, n, pts, gvar=0, divisor=False):
-    grids = [grid(rng, m, gvar if j == 0 else 0) for j, m in enumerate(pts)]
+def gen_dense(rng, dim, n, pts, gvar=0, divisor=False, gdim=0):
+    gdim = gdim % len(pts)
+    grids = [grid(rng, m, gvar if j == gdim else 0) for j, m in enumerate(pts)]
     shape = (n,) + tuple(pts)
     return mk_dense(grids, nonzero(rng, shape) if divisor else dy(rng, shape))
 
 
-def gen_irr(rng, dim, ptss, gvar=0, divisor=False):
+def gen_irr(rng, dim, ptss, gvar=0, divisor=False, gat=0, gdim=0):
+    """gat / gdim: the curve and the dimension whose grid is the variant `gvar` (negative = from the end)."""
     obs = []
+    gat = gat % len(ptss)
     for i, pts in enumerate(ptss):
-        grids = [grid(rng, m, gvar if (j == 0 and i == 0) else 0) for j, m in enumerate(pts)]
+        grids = [grid(rng, m, gvar if (j == gdim % len(pts) and i == gat) else 0) for j, m in enumerate(pts)]
         obs.append((grids, nonzero(rng, tuple(pts)) if divisor else dy(rng, tuple(pts))))
     return mk_irr(obs)
 
@@ -140,6 +143,15 @@ def gen_pair(rng, case, how):
             return gen_dense(rng, dim, n, pts), gen_dense(rng, dim, 1, pts, divisor=True)
         ptss = [[int(rng.integers(2, 5)) for _ in range(dim)]] * n
         return gen_irr(rng, dim, ptss), gen_irr(rng, dim, ptss[:1], divisor=True)
+    if how == "gridlate":
+        # the sampling points differ ONLY in the last curve (irregular) / the last dimension (dense);
+        # every curve keeps its number of points
+        if case.startswith("dense"):
+            pts = [int(rng.integers(2, 5)) for _ in range(dim)]
+            return gen_dense(rng, dim, n, pts), gen_dense(rng, dim, n, pts, gvar=1, divisor=True, gdim=-1)
+        n = int(rng.integers(2, 4))
+        ptss = [[int(rng.integers(2, 5)) for _ in range(dim)] for _ in range(n)]
+        return gen_irr(rng, dim, ptss), gen_irr(rng, dim, ptss, gvar=1, divisor=True, gat=-1, gdim=int(rng.integers(dim)))
     if case.startswith("dense"):
         pts = [int(rng.integers(2, 5)) for _ in range(dim)]
         a = gen_dense(rng, dim, n, pts)
@@ -271,7 +283,7 @@ def arithmetic(rep, col, rng, quick):
     run = C.CoqRun("C12", IMPORTS, shard=10)
     todo = []
     cases = ["dense1d", "dense2d", "irr1d", "irr2d"]
-    hows = ["ok", "ok", "ok", "type", "nobs", "npoints", "dim", "grid", "nobs1"]
+    hows = ["ok", "ok", "gridlate", "type", "nobs", "npoints", "dim", "grid", "nobs1", "ok"]
     n_pairs = 48 if quick else 800
     for i in range(n_pairs):
         case, how = cases[i % 4], hows[(i // 4) % len(hows)]
@@ -444,6 +456,35 @@ def _pick(rng, xs):
     return xs[int(rng.integers(len(xs)))]
 
 
+def multi_curve(rng, case):
+    """A dataset with at least two observations."""
+    while True:
+        a, _ = gen_pair(rng, case, "ok")
+        if a.n_obs >= 2:
+            return a
+
+
+def late_grid(a):
+    """Copy of `a` (same values, same numbers of points) whose sampling points differ ONLY in the last curve
+    (irregular) / the last dimension (dense)."""
+    b = copy.deepcopy(a)
+    if is_dense(b):
+        g = list(b.argvals.values())[-1]
+    else:
+        g = list(b.argvals[list(b.argvals.keys())[-1]].values())[-1]
+    g[-1] += 1 / 16.0
+    return b
+
+
+def late_values(rng, a):
+    """Copy of `a` that differs ONLY in one value of the last observation."""
+    b = copy.deepcopy(a)
+    v = np.asarray(b.values)[-1] if is_dense(b) else list(b.values.values())[-1]
+    idx = tuple(int(rng.integers(s)) for s in v.shape)
+    v[idx] = v[idx] + float(_pick(rng, [1e-3, 0.5, -2.0]))
+    return b
+
+
 def equality(rep, col, rng, quick):
     run = C.CoqRun("C12", IMPORTS, shard=48)
     todo = []
@@ -458,7 +499,14 @@ def equality(rep, col, rng, quick):
             ya, xb = perturbed(rng, a, "asym")
             pairs.append((case, "asym-close", ya, xb))       # |y - x| <= atol + rtol|x|
             pairs.append((case, "asym-not-close", xb, ya))   # |x - y| >  atol + rtol|y|
-            for how in ("type", "nobs", "npoints", "dim", "grid"):
+            # only a LATER curve differs (first curve identical): in its sampling points, resp. in its values
+            am = multi_curve(rng, case)
+            lg, lv = late_grid(am), late_values(rng, am)
+            pairs.append((case, "late-grid-same-values", am, lg))
+            pairs.append((case, "late-grid-same-values-swapped", lg, am))
+            pairs.append((case, "late-values-same-grid", am, lv))
+            pairs.append((case, "late-values-same-grid-swapped", lv, am))
+            for how in ("type", "nobs", "npoints", "dim", "grid", "gridlate"):
                 a2, b2 = gen_pair(rng, case, how)
                 pairs.append((case, "shape-" + how, a2, b2))
                 if i % 2:
@@ -526,6 +574,8 @@ def membership(rep, col, rng, quick):
         variants = [("member", comps[pos]), ("copy-of-member", copy.deepcopy(comps[pos])),
                     ("close-to-member", perturbed(rng, comps[pos], "close")),
                     ("far-from-member", perturbed(rng, comps[pos], "far")),
+                    ("member-with-other-last-grid", late_grid(comps[pos])),
+                    ("member-with-other-last-values", late_values(rng, comps[pos])),
                     ("foreign", gen_dense(rng, 1, nobs + 1, [3]))]
         for vname, x in variants:
             mv = MultivariateFunctionalData(list(comps))
